@@ -1,0 +1,10 @@
+//go:build verif
+
+// Contracts (machine-checked by /verif/engine, see /verif/DESIGN.md). Comment-only file.
+package profile
+
+//@ func NewOffline
+//@   props C10
+//@   at-call OfflinePlayerUUID as id: assert streq(arg0, username)
+//@   ensures [offline-id] called(id) && result.ID == res(id)
+//@   ensures [offline-name] streq(result.Name, username)
